@@ -396,8 +396,8 @@ func genVal(r *gen.Rand, t *T, f F, v reflect.Value, wild bool) {
 			return
 		}
 		n := r.Intn(4)
-		if r.Chance(1, 10) {
-			n = 20 + r.Intn(50)
+		if r.Chance(1, 10) && t.Elem.Elem == nil && t.Elem.K != "struct" && t.Elem.K != "iface" && t.Elem.K != "raw" {
+			n = 20 + r.Intn(50) // long lists (long-form list headers) of scalars only: sizes stay in the KB range
 		}
 		s := reflect.MakeSlice(t.rtype(), n, n)
 		for i := 0; i < n; i++ {
